@@ -40,9 +40,25 @@ def key_of(*parts):
 
 # ---------------------------------------------------------------- implementation side
 
+def can_zero(t):
+    """may serialize() consume no item (then a Seq/Grid/ValuedRooms over it never terminates in Python)"""
+    k = t[0]
+    return k == "F" or (k == "M" and t[2] == 0) or (k == "O" and any(can_zero(x) for x in t[1]))
+
+
+def may_diverge(t):
+    k = t[0]
+    if k in ("Q", "G", "V"):
+        return can_zero(t[1]) or may_diverge(t[1])
+    if k in ("O", "T"):
+        return any(may_diverge(x) for x in t[1])
+    return False
+
+
 def impl_ser(c, h, w, data, idx):
     from cspuz.problem_serializer import CombinatorEnv
-    r = vlib.guarded(lambda: c.serialize(CombinatorEnv(h, w), data, idx))
+    import c15tie
+    r = c15tie.timed(lambda: vlib.guarded(lambda: c.serialize(CombinatorEnv(h, w), data, idx)))
     return r if r[0] == "err" or r[1] is None else ("ok", (r[1][0], r[1][1]))
 
 
@@ -177,6 +193,8 @@ def shape_ok(t, env, data, idx):
         return True if a is None else shape_ok(a, env, data, idx)
     if k == "T":
         v = data[idx]
+        if not isinstance(v, tuple) or len(v) != len(t[1]) or not all(isinstance(x, list) for x in v):
+            return False
         for x, lst in zip(t[1], v):
             r = _obj(x).serialize(env, lst, 0)
             if r is None or r[0] != len(lst) or not exact_ok(x, env, lst, 0) or not shape_ok(x, env, lst, 0):
@@ -185,8 +203,13 @@ def shape_ok(t, env, data, idx):
     if k in ("Q", "G", "V"):
         v = data[idx]
         if k == "Q":
+            if not isinstance(v, list) or len(v) != t[2]:
+                return False
             d = v
         elif k == "G":
+            gh, gw = (env.height, env.width) if t[2] is None else t[2]
+            if not isinstance(v, list) or len(v) != gh or not all(isinstance(r, list) and len(r) == gw for r in v):
+                return False
             d = [x for row in v for x in row]
         else:
             d = [val for _, val in sorted(zip(v[0], v[1]), key=lambda rv: min(rv[0]))]
@@ -345,7 +368,7 @@ def search(ctx):
     m = getattr(ctx, "_c15_model", None)
     n_terms = 400 if ctx.thorough else 120
     terms = getattr(ctx, "_c15_terms", None) or gen_terms(ctx, n_terms)
-    wf_terms = [t for t in terms if G.wf(t)]
+    wf_terms = [t for t in terms if G.wf(t) and not may_diverge(t)]
     if m is not None:
         try:
             outs = m.batch(["WF " + G.term_tok(t) for t in wf_terms])
